@@ -40,6 +40,7 @@ pub struct SymbolMap {
     name_to_class: HashMap<EcoString, RecordId>,
     name_to_def: HashMap<EcoString, RecordId>,
     name_to_multiclass: HashMap<EcoString, MulticlassId>,
+    name_to_defset: HashMap<EcoString, DefsetId>,
     file_to_symbol_list: HashMap<FileId, Vec<SymbolId>>,
     pos_to_symbol_map: HashMap<FileId, IntervalMap<TextSize, SymbolId>>,
 }
@@ -131,6 +132,10 @@ impl SymbolMap {
         self.multiclass_list
             .get_mut(multiclass_id)
             .expect("invalid multiclass id")
+    }
+
+    pub fn find_defset(&self, name: &EcoString) -> Option<DefsetId> {
+        self.name_to_defset.get(name).copied()
     }
 
     pub fn find_multiclass(&self, name: &EcoString) -> Option<MulticlassId> {
@@ -319,6 +324,12 @@ impl SymbolMap {
             .push(id.into());
         self.add_to_pos_to_symbol_map(define_loc, id);
         id
+    }
+
+    /// The name of a defset denotes the list of its records once the defset is complete.
+    pub fn register_defset_name(&mut self, defset_id: DefsetId) {
+        let name = self.defset(defset_id).name.clone();
+        self.name_to_defset.insert(name, defset_id);
     }
 
     pub fn add_multiclass(&mut self, multiclass: Multiclass) -> MulticlassId {
